@@ -1455,8 +1455,12 @@ class SyncObj(object):
                 for i, consumer in enumerate(self.__consumers):
                     consumer._deserialize(consumersData[i])
 
-            if clearJournal or \
-                    len(self.__raftLog) < 2 or \
+            # Entries that follow the snapshot position are kept when the log agrees with the
+            # snapshot there (log start older than the dump after a kill between storing the dump
+            # and trimming the journal; snapshot received by a node whose log is longer).
+            if self.__raftLog[0][1] < data[2][1]:
+                self.__deleteEntriesTo(data[2][1])
+            if len(self.__raftLog) < 2 or \
                     self.__raftLog[0] != data[2] or \
                     self.__raftLog[1] != data[1]:
                 self.__raftLog.clear()
